@@ -26,6 +26,10 @@ def main(p):
         return out
     tp = a['proto_package']
     numeric = a['numeric']
+    if a.get('debug_logging'):
+        import logging
+        logging.getLogger().setLevel(logging.DEBUG)
+        logging.getLogger().addHandler(logging.NullHandler())
     rules = {}
     for f in p.req.proto_file:
         if f.name in p.req.file_to_generate:
